@@ -667,6 +667,26 @@ def _const_set(mod, e: Optional[ast.expr]) -> Optional[Set[str]]:
         vals = [x.value for x in e.elts if isinstance(x, ast.Constant)]
         if len(vals) == len(e.elts):
             return set(vals)
+    if isinstance(e, ast.BinOp) and isinstance(e.op, (ast.BitAnd, ast.BitOr)):
+        a, b = _const_set(mod, e.left), _const_set(mod, e.right)
+        if a is not None and b is not None:
+            return (a & b) if isinstance(e.op, ast.BitAnd) else (a | b)
+    # `k for k in A if k in B [if k not in C]`: a filtered copy of a constant table
+    if isinstance(e, (ast.GeneratorExp, ast.ListComp, ast.SetComp)) and len(e.generators) == 1 and isinstance(e.generators[0].target, ast.Name) \
+            and isinstance(e.elt, ast.Name) and e.elt.id == e.generators[0].target.id:
+        g = e.generators[0]
+        base = _const_set(mod, g.iter)
+        if base is None:
+            return None
+        for c in g.ifs:
+            if isinstance(c, ast.Compare) and len(c.ops) == 1 and isinstance(c.left, ast.Name) and c.left.id == g.target.id and isinstance(c.ops[0], (ast.In, ast.NotIn)):
+                other = _const_set(mod, c.comparators[0])
+                if other is None:
+                    return None
+                base = (base & other) if isinstance(c.ops[0], ast.In) else (base - other)
+            else:
+                return None
+        return base
     return None
 
 
@@ -885,6 +905,11 @@ def rule_i(ctx: Context, R: Reporter):
             if cc not in tg:
                 continue
             kw = next((k for k in call.keywords if k.arg == "log_likelihood"), None)
+            if kw is None:
+                # positional: the dataclass fields in declaration order
+                fields = [st.target.id for st in cc.node.body if isinstance(st, ast.AnnAssign) and isinstance(st.target, ast.Name)]
+                if "log_likelihood" in fields and fields.index("log_likelihood") < len(call.args) and not any(isinstance(a_, ast.Starred) for a_ in call.args):
+                    kw = ast.keyword(arg="log_likelihood", value=call.args[fields.index("log_likelihood")])
             if kw is None:
                 continue
             n += 1
